@@ -926,3 +926,44 @@ B('cache-marker-keeps-dead-loop', ['C01'], ['C01-R9'],
   (A, "                    caching_loop = aio.get_running_loop()\n                    event = aio.Event()", "                    event = aio.Event()"))
 B('cache-marker-reuses-event', ['C01'], ['C01-R9', 'C01-R1'],
   (A, "                    caching_loop = aio.get_running_loop()\n                    event = aio.Event()\n                    events[key] = caching_loop, event", "                    caching_loop = aio.get_running_loop()\n                    events[key] = caching_loop, event"))
+
+# --- round 2 rules ---------------------------------------------------------------------------------
+B('reg-last-batcher-memo', ['C15'], ['C15-R3'],
+  (A, "        = WeakKeyDict()\n", "        = WeakKeyDict()\n    batcher = None\n"),
+  (A, """        loop = aio.get_running_loop()
+        try:
+            batcher = batchers[loop]
+        except KeyError:
+            batcher = batchers[loop] = AsyncBackgroundBatcher(""", """        nonlocal batcher
+        loop = aio.get_running_loop()
+        if batcher is None or batcher._loop is not loop:
+            batcher = batchers.get(loop)
+        if batcher is None:
+            batcher = batchers[loop] = AsyncBackgroundBatcher("""))
+B('bridge-bounded-queue-nowait', ['C16'], ['C16-TA12'],
+  (A, "    q: 'aio.Queue[Union[T, object]]' = aio.Queue()\n", "    q: 'aio.Queue[Union[T, object]]' = aio.Queue(256)\n"))
+T('bridge-queue-maxsize-zero', ['C16'],
+  (A, "    q: 'aio.Queue[Union[T, object]]' = aio.Queue()\n", "    q: 'aio.Queue[Union[T, object]]' = aio.Queue(maxsize=0)\n"))
+B('looplock-entry-popped-by-stopper', ['C17'], ['C17-R3'],
+  (A, "        future.result()  # Wait for loop to exit and reveal errors\n", "        future.result()  # Wait for loop to exit and reveal errors\n        _LOOP_LOCKS.pop(id(loop), None)\n"))
+B('looplock-entry-deleted-after-run', ['C17'], ['C17-R3'],
+  (A, "        future.result()  # Wait for loop to exit and reveal errors\n", "        future.result()  # Wait for loop to exit and reveal errors\n        del _LOOP_LOCKS[id(loop)]\n"))
+B('split-closes-source', ['C18'], ['C18-R6'],
+  (I, "    return compress(i1, c1), compress(i2, map(op.not_, c2))\n", "    if hasattr(iterable, 'close'):\n        iterable.close()\n    return compress(i1, c1), compress(i2, map(op.not_, c2))\n"))
+B('parse-strips-before-parsing', ['C19'], ['C19-R4'],
+  (P, "        if isinstance(x, str):\n            try:\n                return parse(x)", "        if isinstance(x, str):\n            x = x.strip()\n            try:\n                return parse(x)"))
+T('parse-local-copy-of-x', ['C19'],
+  (P, "        if isinstance(x, str):\n            try:\n                return parse(x)", "        text = x\n        if isinstance(text, str):\n            try:\n                return parse(text)"))
+B('cache-unbound-result-on-failure', ['C01'], ['C01-U1'],
+  (A, """                else:
+                    _cache[key] = result  # Cache for other tasks
+                finally:
+                    with event_making_lock:
+                        # Wake up any waiting tasks
+                        event.set()""", """                else:
+                    _cache[key] = result  # Cache for other tasks
+                finally:
+                    with event_making_lock:
+                        logger.debug('computed %r', result)
+                        # Wake up any waiting tasks
+                        event.set()"""))
